@@ -43,7 +43,8 @@ template <
 fcppt::optional::object<Enum> from_int(Value const &_value) noexcept
 {
   return fcppt::optional::make_if(
-      fcppt::cast::size<fcppt::enum_::size_type<Enum>>(_value) < fcppt::enum_::size<Enum>::value,
+      // Compare before narrowing: the value may not fit into the enum's size type.
+      _value < fcppt::enum_::size<Enum>::value,
       [&_value] { return fcppt::cast::int_to_enum<Enum>(_value); });
 }
 }
